@@ -182,7 +182,7 @@ MUTANTS += [
     {"name": "c19-sendfile-not-counted", "prop": "C19", "checks": ["C19"],
      "edits": [(W, "            self.sent += sent or 0", "            pass")]},
     {"name": "c19-gthread-logs-before-response", "prop": "C19", "checks": ["C19"],
-     "edits": [(GT, "            respiter = self.wsgi(environ, resp.start_response)\n            try:", "            respiter = self.wsgi(environ, resp.start_response)\n            self.log.access(resp, req, environ, datetime.now() - request_start)\n            try:")]},
+     "edits": [(GT, "                resp.force_close()\n            try:\n                if isinstance(respiter, environ['wsgi.file_wrapper']):", "                resp.force_close()\n            self.log.access(resp, req, environ, datetime.now() - request_start)\n            try:\n                if isinstance(respiter, environ['wsgi.file_wrapper']):")]},
     {"name": "c19-status-from-first-start-response", "prop": "C19", "checks": ["C19"],
      "edits": [(GL, "        status = resp.status\n        if isinstance(status, str):\n            status = status.split(None, 1)[0]", "        status = resp.status\n        if isinstance(status, str):\n            status = status.split(None, 1)[0]\n        if status == '404':\n            status = '200'")]},
 ]
